@@ -11,4 +11,9 @@ open Strengths.Gen.PyIdioms
 and reads dictionaries by key) -/
 theorem rdnetwork_value_semantic : valueSemantic inv_rdnetwork = true := by decide +kernel
 
+/-- `rdnetwork.py` never aliases an array on purpose: no `np.asarray`, `np.frombuffer`, `.view(…)`, `memoryview` — what a function
+returns is a fresh object (the model's values are immutable; this is the source fact that lets mutation of a returned
+object be ignored) -/
+theorem rdnetwork_no_views : views_rdnetwork = [] := by decide +kernel
+
 end Strengths.PyIdioms
